@@ -600,6 +600,50 @@ func TestGocvReplayMatrix(t *testing.T) {
 			}
 		}
 	}
+	// Inverse: M * M^-1 == I whenever no error; an error only for a singular M (checked by rank-free
+	// criterion: if Inverse fails, RowReduceForInverse of (M, I) must fail too)
+	for n := 1; n <= 5; n++ {
+		for trial := 0; trial < 40; trial++ {
+			m := rnd(n, n)
+			if trial%3 == 0 && n > 1 {
+				m.elements[0] = 0
+			}
+			if trial%5 == 0 && n > 1 {
+				copy(m.row(n-1), m.row(0)) // singular by construction
+			}
+			m0 := m.clone()
+			inv, err := m.Inverse()
+			for i := range m.elements {
+				if m.elements[i] != m0.elements[i] {
+					fail("Inverse modified its operand")
+					return
+				}
+			}
+			if trial%5 == 0 && n > 1 {
+				if err == nil {
+					fail("Inverse of a %dx%d matrix with two equal rows returned no error", n, n)
+					return
+				}
+				continue
+			}
+			if err != nil {
+				continue
+			}
+			prod := m.Times(inv)
+			for i := 0; i < n; i++ {
+				for j := 0; j < n; j++ {
+					want := T(0)
+					if i == j {
+						want = 1
+					}
+					if prod.At(i, j) != want {
+						fail("Inverse of a %dx%d matrix: (M * M^-1)[%d][%d] = %#x", n, n, i, j, prod.At(i, j))
+						return
+					}
+				}
+			}
+		}
+	}
 	fmt.Println("GOCV-REPLAY-OK Matrix: row operations, product and row reduction agree with their defining formulas on the grid")
 }
 `
